@@ -162,18 +162,55 @@ def msgOfToken (s : String) : Option Input :=
     | r => r
   | _ => none
 
-def parseTickSteps : List String → Option (List TickInput)
+/-- A tick-line step: one `tick()` of the model, or a burst `bU:<k>:<n>`: the peer writes `k` UPDATEs back
+to back and `tick()` runs once per UPDATE (while the connection lasts and no tick fails); the
+application reads late, which the model - like the real `send().await` - does not let lose anything.
+The burst is literally `k` model ticks; their outputs are concatenated into one record. -/
+inductive DTick where
+  | one (t : TickInput)
+  | burst (k n : Nat)
+
+def parseBurst (s : String) : Option DTick :=
+  match s.splitOn ":" with
+  | ["bU", k, n] =>
+    match num k 12, num n 200 with
+    | some k, some n => if k < 2 then none else some (.burst k n)
+    | _, _ => none
+  | _ => none
+
+def parseTickSteps : List String → Option (List DTick)
   | [] => some []
   | s :: rest =>
-    let one : Option TickInput :=
-      if s == "c" then some .closed
-      else if s == "cD" then some .cmdDisconnect
-      else if s == "cK" then some .cmdKeepalive
-      else if s.startsWith "w" then (msgOfToken s).map .frame
-      else (parseStep s).map .direct
+    let one : Option DTick :=
+      if s == "c" then some (.one .closed)
+      else if s == "cD" then some (.one .cmdDisconnect)
+      else if s == "cK" then some (.one .cmdKeepalive)
+      else if s.startsWith "bU:" then parseBurst s
+      else if s.startsWith "w" then (msgOfToken s).map (fun m => .one (.frame m))
+      else (parseStep s).map (fun i => .one (.direct i))
     match one, parseTickSteps rest with
     | some i, some l => some (i :: l)
     | _, _ => none
+
+def burstRun (cfg : Cfg) (n : Nat) : Nat → St → List Out → TickResult
+  | 0, s, acc => .res (.next s true acc)
+  | k + 1, s, acc =>
+    match tickStep cfg s (.frame (.msgUpdate n)) with
+    | .res (.next s' ok outs) =>
+      if !ok || !s'.conn || k == 0 then .res (.next s' ok (acc ++ outs))
+      else burstRun cfg n k s' (acc ++ outs)
+    | r => r
+
+def dtickStep (cfg : Cfg) (s : St) : DTick → TickResult
+  | .one t => tickStep cfg s t
+  | .burst k n => if !s.conn then .noConn else burstRun cfg n k s []
+
+def runDTick (cfg : Cfg) : St → List DTick → List TickResult
+  | _, [] => []
+  | s, i :: rest =>
+    match dtickStep cfg s i with
+    | .res (.next s' ok outs) => .res (.next s' ok outs) :: runDTick cfg s' rest
+    | r => [r]
 
 def showTick : TickResult → String
   | .noConn => "noconn"
@@ -184,7 +221,7 @@ def handle (ws : List String) : String :=
   | "t" :: cfg :: steps =>
     if steps.isEmpty then "bad-op" else
     match parseCfg cfg, parseTickSteps steps with
-    | some cfg, some ins => " ; ".intercalate ((runTick cfg St.fresh ins).map showTick)
+    | some cfg, some ins => " ; ".intercalate ((runDTick cfg St.fresh ins).map showTick)
     | _, _ => "bad-op"
   | "h" :: cfg :: init :: steps =>
     if steps.isEmpty then "bad-op" else
